@@ -1188,7 +1188,8 @@ class SymSession:
                 name = k if isinstance(k, str) else k.name
                 nv = ev.eval(v, env) if isinstance(v, el.ClauseElement) \
                     else sqlval(v)
-                if m is True:
+                if m is True or name in ('updated_at', 'created_at'):
+                    # timestamps are not the subject of any property
                     newvals[name] = cell(nv)
                 else:
                     newvals[name] = cell(ite_nv(
